@@ -50,7 +50,12 @@ func runC08(o *cli.Opts, run *evid.Run) {
 			return v
 		}
 		if r.Intn(2) == 0 {
-			p := &ref.InsParams{InputHash: big.NewInt(0), StartIndex: c16Index(r), Pre: val(), Post: val()}
+			// the InputHash field may hold anything before the call (zero, a stale hash, a value from a decoded document)
+			pre := big.NewInt(0)
+			if r.Intn(3) == 0 {
+				pre = gen.Below(r, ref.R)
+			}
+			p := &ref.InsParams{InputHash: pre, StartIndex: c16Index(r), Pre: val(), Post: val()}
 			for i := 0; i < batch; i++ {
 				p.Ids = append(p.Ids, val())
 			}
@@ -69,7 +74,11 @@ func runC08(o *cli.Opts, run *evid.Run) {
 			run.Case("helper/insertion", true, key, ok, sample)
 			return
 		}
-		p := &ref.DelParams{InputHash: big.NewInt(0), Pre: val(), Post: val()}
+		pre := big.NewInt(0)
+		if r.Intn(3) == 0 {
+			pre = gen.Below(r, ref.R)
+		}
+		p := &ref.DelParams{InputHash: pre, Pre: val(), Post: val()}
 		for i := 0; i < batch; i++ {
 			p.Indices = append(p.Indices, c16Index(r))
 		}
@@ -93,6 +102,50 @@ func runC08(o *cli.Opts, run *evid.Run) {
 		}
 	}
 	run.Set("sequential_calls", seq)
+	// one parameter struct refilled for consecutive batches (the way a sequencer loop would use it)
+	{
+		var ip prover.InsertionParameters
+		var dp prover.DeletionParameters
+		r := gen.RNG(o.Seed, "C08/reuse")
+		for i := 0; i < o.Pick(400, 4000); i++ {
+			key := fmt.Sprintf("C08/reuse/%d", i)
+			if !run.Wants(key) {
+				continue
+			}
+			pre, _ := c08Value(r)
+			post, _ := c08Value(r)
+			ok := true
+			if i%2 == 0 {
+				ip.StartIndex, ip.PreRoot, ip.PostRoot = c16Index(r), *pre, *post
+				ip.IdComms = ip.IdComms[:0]
+				var ids []*big.Int
+				for k := 0; k < r.Intn(5); k++ {
+					v, _ := c08Value(r)
+					ids = append(ids, v)
+					ip.IdComms = append(ip.IdComms, *v)
+				}
+				ip.ComputeInputHashInsertion()
+				want := ref.HashToField(ref.PackInsertion(ip.StartIndex, pre, post, ids))
+				if new(big.Int).Mod(&ip.InputHash, ref.R).Cmp(want) != 0 {
+					ok = false
+					run.Violate(key, fmt.Sprintf("ComputeInputHashInsertion on a reused parameter struct (batch %d of a sequence) = %s, on-chain packing gives %s", i/2, ref.Num(&ip.InputHash, "hex"), ref.Num(want, "hex")), nil)
+				}
+			} else {
+				dp.PreRoot, dp.PostRoot = *pre, *post
+				dp.DeletionIndices = dp.DeletionIndices[:0]
+				for k := 0; k < r.Intn(5); k++ {
+					dp.DeletionIndices = append(dp.DeletionIndices, c16Index(r))
+				}
+				dp.ComputeInputHashDeletion()
+				want := ref.HashToField(ref.PackDeletion(dp.DeletionIndices, pre, post))
+				if new(big.Int).Mod(&dp.InputHash, ref.R).Cmp(want) != 0 {
+					ok = false
+					run.Violate(key, fmt.Sprintf("ComputeInputHashDeletion on a reused parameter struct (batch %d of a sequence) = %s, on-chain packing gives %s", i/2, ref.Num(&dp.InputHash, "hex"), ref.Num(want, "hex")), nil)
+				}
+			}
+			run.Case("helper/reused-struct", true, key, ok, map[string]any{"step": i})
+		}
+	}
 	cli.ForEach(n, 0, func(i int) {
 		key := fmt.Sprintf("C08/par/%d", i)
 		if run.Wants(key) {
